@@ -491,9 +491,9 @@ TcpStep(ev) ==
   /\ \A k \in 1..nc :
        LET c == ev.conns[k]  gap == c.t_accept - c.t_prev_end IN
        IF c.refused_before > 0
-       THEN Chk("C18", "pause", gap >= 5000 * c.refused_before - 500 /\ gap <= 5000 * c.refused_before + 2000, [i |-> ev.i],
+       THEN Chk("C18", "pause", gap >= 5000 * c.refused_before - 500 /\ gap <= 5000 * c.refused_before + 4000, [i |-> ev.i],
                 IF gap < 5000 * c.refused_before - 500 THEN "too.early" ELSE "too.late")
-       ELSE Chk("C18", "prompt", k = 1 \/ gap <= 2500, [i |-> ev.i], "slow.reconnect")
+       ELSE Chk("C18", "prompt", k = 1 \/ gap <= 4500, [i |-> ev.i], "slow.reconnect")
   /\ Chk("C18", "table.kept", (healthy /\ ~ev.noaccept) => expected \subseteq shown, ev, "lost.aircraft")
   /\ Chk("C18", "partial.line", (healthy /\ ~ev.noaccept) => shown \subseteq expected, ev, "phantom.aircraft")
   /\ Chk("C13", "tcp.junk", (healthy /\ ~ev.noaccept) => expected \subseteq shown, ev, "junk")
